@@ -116,25 +116,15 @@ Theorem C18_from_bbox_invertible : forall B, 0 < rw B -> 0 < rh B ->
 Proof. exact from_bbox_det. Qed.
 Print Assumptions C18_from_bbox_invertible.
 
-(* --- cached conversion of clip paths (F18) ------------------------------------------------ *)
-Theorem C18_cacheable_independent_of_bbox_refuted :
-  KnownClass_cached_obb_link f18_chain = true /\
-  match clip_users [1%N; 2%N] [(f18_chain, Some f18_b1); (f18_chain, Some f18_b2)] {| cs_cache := []; cs_ctr := 0 |},
-        clip_expected f18_chain (Some f18_b2) with
-  | [_; Some v2], Some l2 => ts_list_eqb (cconv_ts v2) l2 = false
-  | _, _ => False
-  end.
-Proof. exact cacheable_refuted. Qed.
-Print Assumptions C18_cacheable_independent_of_bbox_refuted.
-
-(* for every document (clip chains closed under links, an id names one element) and every sequence of users
-   outside the class: each user is clipped with the chain resolved for ITS box, whatever was cached before *)
+(* --- cached conversion of clip paths (F18, fixed by 18adf92) ------------------------------ *)
+(* full strength: for every document (clip chains closed under links, an id names one element) and every sequence
+   of users, each user is clipped with the chain resolved for ITS box, whatever was cached before *)
 Theorem C18_cacheable_independent_of_bbox : forall (taken : list N) (inD : csrc -> Prop),
   (forall e link, inD (e :: link) -> link = [] \/ inD link) ->
   (forall e1 l1 e2 l2, inD (e1 :: l1) -> inD (e2 :: l2) -> ce_id e1 = ce_id e2 -> e1 :: l1 = e2 :: l2) ->
   (forall e l, inD (e :: l) -> In (ce_id e) taken) ->
   forall us ctr,
-    Forall (fun p => inD (fst p) /\ KnownClass_cached_obb_link (fst p) = false) us ->
+    Forall (fun p => inD (fst p)) us ->
     Forall2 (fun p r => match clip_expected (fst p) (snd p) with
                         | Some l => exists v, r = Some v /\ cconv_ts v = l
                         | None => r = None
@@ -144,6 +134,15 @@ Proof.
   exact (clip_users_ok taken inD H1 H2 H3 us _ (cache_ok_empty inD ctr) Hus).
 Qed.
 Print Assumptions C18_cacheable_independent_of_bbox.
+
+(* the former F18 witness: the second user now gets the inner clip path resolved for its own box *)
+Example C18_nv_F18_fixed :
+  match clip_users [1%N; 2%N] [(f18_chain, Some f18_b1); (f18_chain, Some f18_b2)] {| cs_cache := []; cs_ctr := 0 |},
+        clip_expected f18_chain (Some f18_b1), clip_expected f18_chain (Some f18_b2) with
+  | [Some v1; Some v2], Some l1, Some l2 => ts_list_eqb (cconv_ts v1) l1 && ts_list_eqb (cconv_ts v2) l2 = true
+  | _, _, _ => False
+  end.
+Proof. vm_compute. reflexivity. Qed.
 
 (* --- paints inside the content of shared definitions (F25) -------------------------------- *)
 Theorem C18_nested_content_resolved_refuted :
@@ -178,7 +177,7 @@ Example C18_nv_bbox :
   = Some {| rx := (1 # 10) * 50 + 20; ry := (1 # 5) * 40 + 30; rw := (1 # 2) * 50; rh := (1 # 2) * 40 |}.
 Proof. vm_compute. reflexivity. Qed.
 
-Example C18_nv_clip_ok :
-  KnownClass_cached_obb_link [ {| ce_id := 2; ce_units := ObjectBoundingBox; ce_ts := ts_identity |};
-                               {| ce_id := 1; ce_units := UserSpaceOnUse; ce_ts := ts_identity |} ] = false.
-Proof. reflexivity. Qed.
+Example C18_nv_clip_cacheable :
+  chain_cacheable f18_chain = false /\
+  chain_cacheable [ {| ce_id := 1; ce_units := UserSpaceOnUse; ce_ts := ts_identity |} ] = true.
+Proof. split; reflexivity. Qed.
